@@ -51,6 +51,8 @@ func C13(c *core.Ctx) {
 	emit(c, a.ParserChoice())
 	// B-TYPEFORM: "type" as string or one-element list; true and {} as the anything-schema
 	emit(c, a.TypeForms())
+	// A-REFNAMES: both pointer prefixes, case-insensitively, name the same definition
+	ruleRefNames(c)
 	n, probs, notes := a.SchemaProducers()
 	c.Floor("B-LEGACY:decoder", n, 2, "functions that build a *Schema")
 	if len(probs) == 0 {
